@@ -96,17 +96,23 @@ package controller
 //@   requires forall e string :: has(k8s.TaintEffectTypes, e) ==> k8s.TaintEffectTypes[e]
 //@   ensures [C16] r <==> (taintEffect == "" || isTaintEffect(taintEffect))
 
-// the checkThat closure: appends one problem iff the condition is false
+// the checkThat closure: appends one problem iff the condition is false.
+// `mark` is a rigid logical variable (a ghost that nothing assigns): ValidateNodeGroup
+// fixes it to its own entry clock, so "the problems backing array was allocated by
+// ValidateNodeGroup itself" can be carried from call to call.
+//@ ghost mark int
 //@ func ValidateNodeGroup$1(cond, format, output)
 //@   requires problems != nil
-//@   requires base(deref(problems)) == nil || allocated(base(deref(problems)))
+//@   requires base(deref(problems)) == nil || birth(base(deref(problems))) >= mark
+//@   requires mark <= now
 //@   modifies cell(problems), elems(deref(problems))
 //@   ensures cond ==> len(deref(problems)) == old(len(deref(problems)))
 //@   ensures !cond ==> len(deref(problems)) == old(len(deref(problems))) + 1
-//@   ensures base(deref(problems)) == old(base(deref(problems))) || fresh(base(deref(problems)))
+//@   ensures base(deref(problems)) == nil || birth(base(deref(problems))) >= mark
 
 // C16 (validator half): everything the statement lists follows from an empty problem list.
 //@ func ValidateNodeGroup(nodegroup) (problems)
+//@   requires mark == now
 //@   requires nodegroup.softDeleteGracePeriodDuration == 0 && nodegroup.hardDeleteGracePeriodDuration == 0 && nodegroup.scaleUpCoolDownPeriodDuration == 0 && nodegroup.maxNodeAgeDuration == 0
 //@   requires forall e string :: has(k8s.TaintEffectTypes, e) <==> isTaintEffect(e)
 //@   requires forall e string :: has(k8s.TaintEffectTypes, e) ==> k8s.TaintEffectTypes[e]
